@@ -105,6 +105,9 @@ Clause(s, e) ==
     [] e.a = "puts" ->
          IF On("P:CommitComplete") /\ (~SafetyOf(n.chunks, n.bad, n.snaps, Body)) THEN "P:CommitComplete"
          ELSE IF On("P:SnapshotWellFormed") /\ (~e.wellformed) THEN "P:SnapshotWellFormed"
+         \* C06: the private part of a snapshot decrypts only under the key of the user who took it (keys as intended by the key graph:
+         \* a shared or cloned key is another key, even with the same password)
+         ELSE IF On("P:PrivatePartOnlyForItsOwner") /\ ~(Rng(e.decoders) \subseteq Rng(e.intended)) THEN "P:PrivatePartOnlyForItsOwner"
          ELSE IF On("P:SnapshotFaithful") /\ (Body[e.s].files # Rng(e.want)) THEN "P:SnapshotFaithful"
          ELSE "ok"
     [] e.a = "delc" ->
@@ -122,7 +125,8 @@ Clause(s, e) ==
     [] e.a \in {"puto", "delo"} -> IF On("P:OthersUntouched") THEN "P:OthersUntouched" ELSE "ok"
     [] e.a = "end" ->
          LET o == s.op[e.p]  f == FamOfU(o.u) IN
-         IF On("P:DeleteRefused") /\ (o.kind = "del" /\ o.refuse /\ e.ok) THEN "P:DeleteRefused"
+         IF On("P:Terminates") /\ e.hung THEN "P:Terminates"          \* C03 / C09: a command ends - with a result or with an error - whatever fails
+         ELSE IF On("P:DeleteRefused") /\ (o.kind = "del" /\ o.refuse /\ e.ok) THEN "P:DeleteRefused"
          ELSE IF On("P:CommandSucceeds") /\ (~e.ok /\ ~e.fault /\ ~(o.kind = "del" /\ o.refuse)) THEN "P:CommandSucceeds"
          ELSE IF On("P:DeleteAccepted") /\ (o.kind = "del" /\ ~o.refuse /\ ~e.ok /\ ~e.fault) THEN "P:DeleteAccepted"
          ELSE IF On("P:CleanExact") /\ (o.kind = "clean" /\ e.ok /\ ~CleanExactOf(n.chunks, n.snaps, Body, f)) THEN "P:CleanExact"
